@@ -570,6 +570,18 @@ def ordered_parallel_graphs():
                            [{"src": 1, "dst": 0, "kind": back, "dattr": "tr"}]}
 
 
+def ordered_parallel_ring_graphs():
+    """Three simulators: 0 -> 1 carries two parallel connections of different kinds in a given ORDER, the way back 1 -> 2 -> 0 runs
+    through a third simulator inside the group, in a sibling group or outside (where a weak step is erased)."""
+    import itertools
+    kinds = ["plain", "ts", "weak"]
+    for placement in ([[0], [0], [0]], [[0], [0], []], [[0], [0], [1]], [[0, 0], [0, 0], [0]], [[], [], []]):
+        for k1, k2 in itertools.permutations(kinds, 2):
+            for b1, b2 in itertools.product(["plain", "ts", "weak"], repeat=2):
+                yield {"placement": placement, "conns": [{"src": 0, "dst": 1, "kind": k1, "dattr": "tr"}, {"src": 0, "dst": 1, "kind": k2, "dattr": "tr"},
+                                                         {"src": 1, "dst": 2, "kind": b1, "dattr": "tr"}, {"src": 2, "dst": 0, "kind": b2, "dattr": "tr"}]}
+
+
 def gen_cyclic_graph(rng: random.Random, placement):
     """Mostly-cyclic multigraph: a random cycle of plain or mixed connections plus chords/shortcuts/self-connections."""
     n = len(placement)
@@ -595,7 +607,7 @@ def suite_cycles(rng: random.Random, tier: str) -> Suite:
     n_graphs = 500 if tier == "quick" else 8000
     n_two = 700 if tier == "quick" else None
     s.rule = (("700 sampled of" if n_two else "all") + " 8190 multigraphs over two simulators (every ordered pair incl. self-connections carries any subset of "
-              f"plain / time-shifted / weak connections; flat and grouped) + all ordered pairs of parallel connections of different kinds (plain / shifted / weak / async / shifted+async / weak+async) with a back edge + {n_graphs} random and {n_graphs} mostly-cyclic multigraphs over 3 simulators in 8 group "
+              f"plain / time-shifted / weak connections; flat and grouped) + all ordered pairs of parallel connections of different kinds (plain / shifted / weak / async / shifted+async / weak+async) with a back edge + the same with the way back through a third simulator inside / beside / outside the group (270 rings; quick: the 162 whose way back leaves the group + 40 sampled) + {n_graphs} random and {n_graphs} mostly-cyclic multigraphs over 3 simulators in 8 group "
               "placements with up to 9 connections (plain / time-shifted / weak / async, trigger or non-trigger inputs, shortcuts and parallel connections); "
               "three orders of worklist choice on the model side; compared: ensure_no_dataflow_cycles accepts / rejects / asserts, and the "
               "triggering-ancestor table with its minimal delays. distinct = distinct multigraphs")
@@ -603,7 +615,12 @@ def suite_cycles(rng: random.Random, tier: str) -> Suite:
     two = list(two_sim_graphs())
     if n_two:
         two = rng.sample(two, n_two)
-    graphs = two + list(ordered_parallel_graphs()) + [gen_graph(rng, 3, rng.choice(CYC_PLACEMENTS), 5) for _ in range(n_graphs)] + \
+    rings = list(ordered_parallel_ring_graphs())
+    if tier == "quick":
+        # always: the way back leaves the group (that is where a forgotten weak edge changes the verdict); the rest sampled
+        leaving = [g for g in rings if g["placement"][2] != g["placement"][0] and g["placement"][0]]
+        rings = leaving + rng.sample([g for g in rings if g not in leaving], 40)
+    graphs = two + list(ordered_parallel_graphs()) + rings + [gen_graph(rng, 3, rng.choice(CYC_PLACEMENTS), 5) for _ in range(n_graphs)] + \
         [gen_cyclic_graph(rng, rng.choice(CYC_PLACEMENTS)) for _ in range(n_graphs)]
     seen = set()
     for g in graphs:
